@@ -309,6 +309,9 @@ class FermionicArray(AbelianArray):
 
         if axes is None:
             axes = tuple(range(new.ndim - 1, -1, -1))
+        else:
+            # axes counted from the end are the same permutation
+            axes = tuple(ax + new.ndim if ax < 0 else ax for ax in axes)
 
         if phase:
             # compute new sector phases
